@@ -216,37 +216,18 @@ def draw_samples(case):
     for _ in range(case["n_samples"]):
         try:
             out.append(next(gen))
-        except ValueError as exc:
-            if case["mode"] != "initial" and case["mode"] != "sequences" and _short_chain(exc):
+        except ValueError:
+            # In the modes where a degree/size sequence is SAMPLED from the model the chain may
+            # come out with fewer than two hyperedges, which the sampler refuses with a
+            # ValueError before it yields anything.  The property constrains the hypergraphs
+            # that are produced, so such a run is discarded (and counted), whatever the wording
+            # of the refusal.  An initial hypergraph or a pair of sequences with >= 2 hyperedges
+            # (the quantifier's domain) must never be refused, and nothing may fail once a
+            # first sample was produced.
+            if case["mode"] not in ("initial", "sequences") and not out:
                 raise Discarded() from None
             raise
     return sampler, out
-
-
-CHOICE_ERRORS = ("Cannot take a larger sample than population",
-                 "a must be a positive integer unless no samples are taken",
-                 "a cannot be empty unless no samples are taken")
-
-
-def _short_chain(exc):
-    """The ValueError is numpy's refusal to pick two of fewer than two hyperedges
-    (Generator.choice(len(chain), size=2, replace=False)).  When the frame of the
-    sampler's step function is on the traceback its list is looked at as well (only to
-    classify the discard): a chain of two or more hyperedges is never discarded."""
-    if not any(m in str(exc) for m in CHOICE_ERRORS):
-        return False
-    tb = exc.__traceback__
-    frame = None
-    while tb is not None:
-        if tb.tb_frame.f_code.co_name == "_mcmc_step":
-            frame = tb.tb_frame
-        tb = tb.tb_next
-    if frame is None:
-        return True
-    chain = frame.f_locals.get("hye_list")
-    if isinstance(chain, list):
-        return len(chain) < 2 and "hye1" not in frame.f_locals
-    return True
 
 
 def table(h):
